@@ -200,7 +200,7 @@ class AbstractFileSystem(DictType):
             try:
                 lock = FileLock(f"{fname}.lock")
                 with lock:
-                    info = open(fname, "r").read().strip()
+                    info = open(fname, "r").read()
                 lock.release()
                 return self.value_conv.deserialize(info)
             except Exception as err:
